@@ -624,7 +624,8 @@ def sep_violations(goldens):
             for j in range(i + 1, len(obs)):
                 a, b = obs[i], obs[j]
                 if (a["cdef_sha"], a["source_sha"]) != (b["cdef_sha"], b["source_sha"]) or \
-                        a.get("compile_args") != b.get("compile_args"):
+                        a.get("compile_args") != b.get("compile_args") or \
+                        (a.get("compile_env") or {}) != (b.get("compile_env") or {}):
                     d1, d2 = sorted([a["D"], b["D"]])
                     v.append({"key": f"N-SEP/{d1}~{d2}", "at": None, "D": d1, "other": d2,
                               "detail": f"requests {d1} and {d2} share module name {name} but "
